@@ -14,25 +14,31 @@ import (
 	"verif/harness/mstore"
 )
 
-var storeCache = map[string]*mstore.Store{}
+type storeEntry struct {
+	data []core.SeriesSpec // kept alive so that its address cannot be reused while cached
+	st   *mstore.Store
+}
 
+var storeCache = map[string]storeEntry{}
+
+// storeFor returns the model storage of a case's dataset, cached by the identity of
+// the dataset slice.
 func storeFor(cs *core.Case) *mstore.Store {
-	// key by data identity (slices of the same dataset share their first element address)
 	key := fmt.Sprintf("%d/", len(cs.Data))
 	if len(cs.Data) > 0 {
 		key += fmt.Sprintf("%p", &cs.Data[0])
 	}
-	if st, ok := storeCache[key]; ok {
-		return st
+	if e, ok := storeCache[key]; ok {
+		return e.st
 	}
 	st, err := core.BuildStore(cs.Data)
 	if err != nil {
 		panic(err)
 	}
-	if len(storeCache) > 64 {
-		storeCache = map[string]*mstore.Store{}
+	if len(storeCache) > 256 {
+		storeCache = map[string]storeEntry{}
 	}
-	storeCache[key] = st
+	storeCache[key] = storeEntry{data: cs.Data, st: st}
 	return st
 }
 
